@@ -14,6 +14,42 @@ ASSUMPTIONS = [
 ]
 
 
+def lists_as_other_iterables(ctx, f, d, built, rng, wit):
+    """the lists of a dictionary handed over as tuples or as one-shot iterables (generator, iter(), map()): a builder that accepts
+    them builds the same bytes as from lists; one that needs a real list refuses -- it does not silently build something else"""
+    import copy
+
+    def convert(x, how, depth=0):
+        if isinstance(x, dict):
+            return {k: convert(v, how, depth + 1) for k, v in x.items()}
+        if isinstance(x, list) and x and all(isinstance(e, dict) for e in x):
+            inner = [convert(e, how, depth + 1) for e in x]
+            found[0] += 1
+            if how == "tuple":
+                return tuple(inner)
+            if how == "iter":
+                return iter(inner)
+            if how == "map":
+                return map(lambda e: e, inner)
+            return (e for e in inner)
+        return x
+
+    how = rng.choice(["tuple", "iter", "generator", "map"])
+    found = [0]
+    d2 = convert(copy.deepcopy(d), how)
+    if not found[0]:
+        return
+    ctx.count("builds_from_other_iterables")
+    try:
+        got = bytes(f.lib_build(d2))
+    except Exception:  # noqa: BLE001
+        ctx.count("other_iterables_refused")
+        return
+    if got != bytes(built):
+        ctx.fail("C06:%s.lists_given_as_%s_build_other_bytes" % (f.name, how), "%s: descriptor lists given as %s build %d bytes that differ from the %d bytes built from lists (first difference at %d)"
+                 % (f.name, how, len(got), len(built), next((i for i in range(min(len(got), len(built))) if got[i] != built[i]), min(len(got), len(built)))), wit)
+
+
 def shards(tier, seed):
     from vmon.spec import datain as D
 
@@ -335,6 +371,7 @@ def run(shard, ctx):
         if built is not None and f.name == "inquiry.vpd83" and d.get("designator_descriptors"):
             resized_designator(ctx, f, v, b, rng, wit)
         if built is not None:
+            lists_as_other_iterables(ctx, f, d, built, rng, wit)
             built_bytes_are_private(ctx, f, d, wit)
             rejected_builds_in_between(ctx, f, d, rng, wit)
             try:
